@@ -150,9 +150,12 @@ Proof. unfold oofnat. cbn [oofZ ROps]. symmetry. apply INR_IZR_INZ. Qed.
 Lemma Rsum_div_counts (l : list nat) (n : nat) :
   Rsum (map (fun c => INR c / INR n) l) = INR (list_sum l) / INR n.
 Proof.
-  induction l as [|c t IH]; cbn [map Rsum fold_right list_sum].
+  induction l as [|c t IH].
   - cbn. unfold Rdiv. ring.
-  - fold (Rsum (map (fun c => INR c / INR n) t)). rewrite IH, plus_INR. unfold Rdiv. ring.
+  - change (Rsum (map (fun c => INR c / INR n) (c :: t)))
+      with (INR c / INR n + Rsum (map (fun c => INR c / INR n) t)).
+    change (list_sum (c :: t)) with (c + list_sum t)%nat.
+    rewrite IH, plus_INR. unfold Rdiv. ring.
 Qed.
 
 Lemma class_priors_default (counts : list nat) (n : nat) :
